@@ -363,6 +363,15 @@ impl HashIndex {
     }
 }
 
+/// Verification hooks (compiled only with `--cfg inputlayer_verif`).
+#[cfg(inputlayer_verif)]
+impl HashIndex {
+    /// The index's internal Bloom filter.
+    pub fn verif_bloom(&self) -> &BloomFilter {
+        &self.bloom
+    }
+}
+
 /// Manager for hash indexes across all relations.
 ///
 /// Handles:
